@@ -52,6 +52,12 @@ func collLen(v *Val) int {
 
 // genValue builds the value GEN produces for an output of type t from n.
 func genValue(p *Program, t *T, n int64, tag string) *Val {
+	return genSized(p, t, n, n, tag)
+}
+
+// genSized: n seeds the scalar values, size is the length of every
+// collection (at every nesting level).
+func genSized(p *Program, t *T, n, size int64, tag string) *Val {
 	switch t.K {
 	case TInt:
 		return Int(n)
@@ -64,23 +70,23 @@ func genValue(p *Program, t *T, n int64, tag string) *Val {
 	case TMap:
 		return Obj(map[string]*Val{"n": Int(n), "tag": Str(tag)})
 	case TArray:
-		a := make([]*Val, 0, n)
-		for i := int64(0); i < n; i++ {
-			a = append(a, genValue(p, t.Elem, n*10+i, tag+"_"+strconv.FormatInt(i, 10)))
+		a := make([]*Val, 0, size)
+		for i := int64(0); i < size; i++ {
+			a = append(a, genSized(p, t.Elem, n*10+i, size, tag+"_"+strconv.FormatInt(i, 10)))
 		}
 		return &Val{K: VArr, A: a}
 	case TTMap:
 		o := map[string]*Val{}
-		for i := int64(0); i < n; i++ {
+		for i := int64(0); i < size; i++ {
 			k := "k" + strconv.FormatInt(i, 10)
-			o[k] = genValue(p, t.Elem, n*100+i, tag+"_"+k)
+			o[k] = genSized(p, t.Elem, n*100+i, size, tag+"_"+k)
 		}
 		return Obj(o)
 	case TStruct:
 		sd := p.Struct(t.Name)
 		o := map[string]*Val{}
 		for i, f := range sd.Fields {
-			o[f.Name] = genValue(p, f.T, n+int64(i), tag+"."+f.Name)
+			o[f.Name] = genSized(p, f.T, n+int64(i), size, tag+"."+f.Name)
 		}
 		return Obj(o)
 	}
@@ -132,6 +138,9 @@ func Exec(p *Program, io *StageIO) (*StageResult, error) {
 		outs[st.Outs[0].Name] = Int(s)
 	case "COND":
 		outs[st.Outs[0].Name] = Bool(argOf(io, st.Ins[0].Name).Int() > 0)
+	case "CTRL":
+		outs["p"] = Bool(argOf(io, "a").Int() > 0)
+		outs["q"] = Bool(argOf(io, "b").Int() > 0)
 	case "PRE":
 		// preflight: no outputs
 	case "SUMS":
